@@ -82,7 +82,17 @@ def run_property(pid, mod, tier, seed, verbose=False):
     nontrivial = set(getattr(mod, "NONTRIVIAL", ()))
 
     # ---------------- E1
-    for si, scn in zip(ids, scns):
+    # whole-check budget (safety net for trees on which de-duplication is ineffective, e.g. after a change that adds
+    # run-dependent bookkeeping to the state): scenarios share what is left of it
+    total_budget = int(os.environ.get("VERIF_CHECK_SECONDS", "300" if tier == "quick" else "2400"))
+    for n_done, (si, scn) in enumerate(zip(ids, scns)):
+        left = total_budget - (time.time() - t0)
+        share = max(4, left / max(1, len(scns) - n_done))
+        scn.max_seconds = min(scn.max_seconds or engine._DEFAULT_BUDGET[0], max(share, 4))
+        if tier == "quick":
+            # every quick scenario of the pinned tree stays well below this; it bounds the work on a tree whose
+            # state carries bookkeeping that makes every history a new state
+            scn.max_states = min(scn.max_states, 60000)
         res = engine.explore(si, seed=seed, shadow_every=getattr(mod, "SHADOW", {"quick": 25, "thorough": 5})[tier],
                              progress=ctx.progress if verbose else None)
         cov["states"] += res.states
